@@ -210,6 +210,12 @@ def fast_path_chars(model):
             elif isinstance(n, ast.Return) and n.value is not None and \
                     fi.name != 'render_blocks_':
                 expr = n.value
+            elif isinstance(n, (ast.Assign, ast.AnnAssign)) and \
+                    n.value is not None:
+                # flag = predicate(t) is None / flag = not ('&' in t or ...)
+                expr = n.value
+            elif isinstance(n, ast.IfExp):
+                expr = n.test
             if expr is None:
                 continue
             chars = _chars_in(model, fi, expr)
@@ -237,13 +243,194 @@ def fast_path_chars(model):
     return fi, node, chars, None
 
 
+# ---------------------------------------------------------------- scenario
+class _FS(BaseState):
+    """Scenario state of the simple form: flag variables with known truth
+    value, whether the escaper was called, whether the var branch runs."""
+
+    def __init__(self, env=None, quoted=False, invar=False):
+        self.env = dict(env or {})
+        self.quoted = quoted
+        self.invar = invar
+
+    def key(self):
+        return (tuple(sorted(self.env.items())), self.quoted, self.invar)
+
+    def copy(self):
+        n = _FS(self.env, self.quoted, self.invar)
+        n.trace = self.trace
+        return n
+
+
+class _FastDomain(Domain):
+    """The value is a plain str, the block is the 3-element html_quote form;
+    `p` says whether the string contains a character the predicate tests."""
+
+    def __init__(self, model, fi, p, helper=None):
+        self.model = model
+        self.fi = fi
+        self.p = p
+        self.helper = helper
+        self.esc = _escaper(model).where
+
+    # truth of an expression: True / False / None (unknown)
+    def truth(self, e, st):
+        if isinstance(e, ast.Constant):
+            return bool(e.value)
+        if isinstance(e, ast.Name):
+            return st.env.get(e.id)
+        if isinstance(e, ast.UnaryOp) and isinstance(e.op, ast.Not):
+            v = self.truth(e.operand, st)
+            return None if v is None else not v
+        if isinstance(e, ast.BoolOp):
+            vs = [self.truth(v, st) for v in e.values]
+            if isinstance(e.op, ast.And):
+                if any(v is False for v in vs):
+                    return False
+                return True if all(v is True for v in vs) else None
+            if any(v is True for v in vs):
+                return True
+            return False if all(v is False for v in vs) else None
+        if isinstance(e, ast.Call):
+            f = norm(e.func)
+            if f == 'isinstance' and len(e.args) == 2:
+                names = {norm(x) for x in (
+                    e.args[1].elts if isinstance(e.args[1], ast.Tuple)
+                    else [e.args[1]])}
+                a = norm(e.args[0])
+                if names <= {'str', 'bytes', 'tuple'}:
+                    if names == {'bytes'}:
+                        return False
+                    return True
+                return None
+            if f == 'bool' and e.args:
+                return self.truth(e.args[0], st)
+            if _regex_chars(self.model, self.fi, e):
+                return self.p           # search(t): a match object or None
+            if self.helper is not None and isinstance(e.func, ast.Name) \
+                    and e.func.id == self.helper.name:
+                sub = _FastDomain(self.model, self.helper, self.p)
+                vals = set()
+                for o in Interp(sub).run(self.helper.node, _FS()):
+                    if o.kind == 'return' and o.node is not None and \
+                            o.node.value is not None:
+                        vals.add(sub.truth(o.node.value, o.state))
+                    elif o.kind in ('normal', 'return'):
+                        vals.add(False)         # returns None
+                return next(iter(vals)) if len(vals) == 1 else None
+            if f == 'any' and e.args and _chars_in(self.model, self.fi, e):
+                return self.p
+            return None
+        if isinstance(e, ast.Compare) and len(e.ops) == 1:
+            op, l, r = e.ops[0], e.left, e.comparators[0]
+            if isinstance(op, ast.In) and isinstance(l, ast.Constant) and \
+                    isinstance(l.value, str) and len(l.value) == 1:
+                return self.p           # conservative: one char stands for
+                                        # the whole tested set
+            if isinstance(op, (ast.Is, ast.IsNot)) and \
+                    isinstance(r, ast.Constant) and r.value is None:
+                if isinstance(l, ast.Call) and \
+                        _regex_chars(self.model, self.fi, l):
+                    return (not self.p) if isinstance(op, ast.Is) else self.p
+                if isinstance(l, ast.Name) and 'untaint' in l.id:
+                    return isinstance(op, ast.Is)
+                return None
+            if isinstance(op, (ast.Eq, ast.NotEq)):
+                pos = isinstance(op, ast.Eq)
+                # first_char == 'v'
+                if isinstance(r, ast.Constant) and isinstance(r.value, str):
+                    return (r.value == 'v') == pos
+                if isinstance(r, ast.Constant) and \
+                        isinstance(r.value, int) and \
+                        not isinstance(r.value, bool):
+                    if isinstance(l, ast.Call) and norm(l.func) == 'len':
+                        return (r.value == 3) == pos
+                    v = self.truth(l, st)
+                    if v is None:
+                        return None
+                    return (bool(r.value) == v) == pos
+            if isinstance(op, (ast.Gt, ast.GtE)) and \
+                    isinstance(l, ast.Call) and norm(l.func) == 'len':
+                return True
+        if isinstance(e, ast.IfExp):
+            t = self.truth(e.test, st)
+            if t is None:
+                return None
+            return self.truth(e.body if t else e.orelse, st)
+        return None
+
+    def branch(self, test, st):
+        v = self.truth(test, st)
+        if isinstance(test, ast.Compare) and isinstance(
+                test.comparators[0], ast.Constant) and \
+                test.comparators[0].value == 'v' and v:
+            st = st.copy()
+            st.invar = True
+        if v is None:
+            return [(True, st), (False, st)]
+        return [(v, st)]
+
+    def raises(self, node, st):
+        return []
+
+    def effects(self, stmt, st):
+        ns = st
+        for c in ast.walk(stmt):
+            if isinstance(c, ast.Call) and \
+                    self.esc in self.model.callee_names(c, self.fi):
+                ns = ns.copy()
+                ns.quoted = True
+        if isinstance(stmt, ast.Assign) and len(stmt.targets) == 1 and \
+                isinstance(stmt.targets[0], ast.Name):
+            v = self.truth(stmt.value, ns)
+            ns = ns.copy()
+            if v is None:
+                ns.env.pop(stmt.targets[0].id, None)
+            else:
+                ns.env[stmt.targets[0].id] = v
+        return ns
+
+
+def _scenario_polarity(model, rb, helper, node):
+    """Interpret one iteration of the block loop (or the body of the helper
+    that renders one var block) for a str value in the 3-element form.
+    -> {p: (paths, paths without the escaper, paths with it)}"""
+    loops = [n for n in own_nodes(rb.node) if isinstance(n, ast.For)
+             and any(x is node for x in ast.walk(n))]
+    fi = rb
+    if loops:
+        body, start = loops[0].body, _FS()
+        # flags initialised before the loop
+        d0 = _FastDomain(model, fi, True, helper)
+        for st0 in rb.node.body:
+            if st0 is loops[0]:
+                break
+            if isinstance(st0, ast.Assign):
+                start = d0.effects(st0, start)
+        start.quoted = False
+    else:
+        body, start = rb.node.body, _FS(invar=True)
+    res = {}
+    for p in (True, False):
+        dom = _FastDomain(model, fi, p, helper)
+        it = Interp(dom)
+        outs = it.block(body, start)
+        ends = [o for o in outs if o.kind in ('normal', 'continue', 'return')
+                and o.state.invar]
+        res[p] = (len(ends), [o for o in ends if not o.state.quoted],
+                  [o for o in ends if o.state.quoted])
+    return res
+
+
 def rule_fast_path(model):
     r = RuleResult('C03.R2', 'the fast path skips quoting only for strings '
                    'free of every character the escaper rewrites')
     em = EscapeModel()
     rb, node, chars, helper = fast_path_chars(model)
     need = em.chars(True)
-    r.instance(rb.where, node.test, f'tests {sorted(chars)}; escaper '
+    r.instance(rb.where, getattr(node, 'test', None) or
+               getattr(node, 'value', node),
+               f'tests {sorted(chars)}; escaper '
                f'rewrites {sorted(need)}')
     for c in sorted(need - chars):
         r.finding(rb.where, f'character {c!r} not tested', f'a string '
@@ -251,72 +438,23 @@ def rule_fast_path(model):
                   'takes the fast path and is inserted unescaped by '
                   '&dtml-name; / <dtml-var name html_quote>, while the full '
                   'path escapes it', node=node, ctx=rb)
-    # the true branch must lead to quoting, the false one to skipping
-    body_skip = [n for n in ast.walk(ast.Module(body=node.body,
-                                                type_ignores=[]))
-                 if isinstance(n, ast.Assign) and
-                 isinstance(n.value, ast.Constant)]
-    else_skip = [n for n in ast.walk(ast.Module(body=node.orelse,
-                                                type_ignores=[]))
-                 if isinstance(n, ast.Assign) and
-                 isinstance(n.value, ast.Constant)]
-    if body_skip and else_skip:
-        bv, ev = body_skip[0].value.value, else_skip[0].value.value
-        r.instance(rb.where, f'problem chars -> skip={bv}; none -> '
-                   f'skip={ev}')
-        if bool(bv) or not bool(ev):
-            r.finding(rb.where, 'skip flag polarity', 'strings with problem '
-                      'characters skip quoting (flag inverted)', node=node,
-                      ctx=rb)
-    elif any(isinstance(c, ast.Call) and 'html_quote:html_quote' in
-             model.callee_names(c, rb) for s_ in node.body
-             for c in ast.walk(s_)):
-        # shape: if <problem characters present>: t = html_quote(t)
-        neg = False
-        scope = node.test
-        stop = node
-        if helper is not None:
-            # polarity of the call in the test, and of the compares inside
-            # the helper's return expression
-            for c in ast.walk(node.test):
-                if isinstance(c, ast.Call) and \
-                        isinstance(c.func, ast.Name) and \
-                        c.func.id == helper.name:
-                    for a in ancestors(c):
-                        if a is node:
-                            break
-                        if isinstance(a, ast.UnaryOp) and \
-                                isinstance(a.op, ast.Not):
-                            neg = not neg
-            rets = [x for x in own_nodes(helper.node)
-                    if isinstance(x, ast.Return) and x.value is not None
-                    and _chars_in(model, helper, x.value)]
-            scope = rets[0].value
-            stop = rets[0]
-        for c in ast.walk(scope):
-            if isinstance(c, ast.Compare) and isinstance(c.ops[0], ast.In) \
-                    and isinstance(c.left, ast.Constant):
-                for a in ancestors(c):
-                    if a is stop:
-                        break
-                    if isinstance(a, ast.UnaryOp) and isinstance(a.op,
-                                                                 ast.Not):
-                        neg = not neg
-                    if isinstance(a, ast.BoolOp) and isinstance(a.op,
-                                                                ast.And):
-                        # conjunction with the character tests is fine only
-                        # for `isinstance(t, str) and (...)`-style guards
-                        pass
-                break
-        r.instance(rb.where, 'problem chars -> html_quote(...)',
-                   'negated' if neg else 'positive')
-        if neg:
-            r.finding(rb.where, 'skip flag polarity', 'strings with problem '
-                      'characters skip quoting (test inverted)', node=node,
-                      ctx=rb)
-    else:
+    # polarity, decided semantically: interpret one iteration of the block
+    # loop for a plain str in the 3-element (html_quote) form
+    res = _scenario_polarity(model, rb, helper, node)
+    n_t, unq_t, q_t = res[True]
+    n_f, unq_f, q_f = res[False]
+    r.instance(rb.where, 'scenario: str with a tested character',
+               f'{n_t} path(s), {len(unq_t)} without the escaper')
+    r.instance(rb.where, 'scenario: str without tested characters',
+               f'{n_f} path(s), {len(unq_f)} skip the escaper')
+    if not n_t or not n_f:
         raise AnalysisError('render_blocks_: cannot relate the character '
-                            'test to the quoting decision')
+                            'test to the quoting decision (no path through '
+                            'the simple form)')
+    for o in unq_t:
+        r.finding(rb.where, 'skip flag polarity', 'strings with problem '
+                  'characters skip quoting (test or flag inverted)',
+                  node=node, ctx=rb, path=o.state.trace)
     # bytes are never skipped
     return r
 
